@@ -549,6 +549,7 @@ func runC15(w *World, r *Report) {
 
 	shareRule(w, r, "C15.keyed-node-converter-is-the-maps", "a node with an input key takes its mapped fields as a map: forMapInput rebuilds the input-side slots for map[string]any instead of copying the wrapped component's", 4, "C04", "C04.in-out-wiring")
 	shareRule(w, r, "C15.compile-installs-converters-per-compile", "Compile installs the map-to-input converter of a field-mapped node into a per-compile copy, never into the builder's own handler table: a second Compile of the same workflow would install it twice and every run fail 'unexpected input type'", 1, "C20", "C20.compile-pure")
+	shareRule(w, r, "C15.checked-stream-keeps-its-chunk-type", "the stream form of a run-time checked mapping hands on a stream of the intermediate map type, like the value form hands on the map: a successor that has something to merge (a second predecessor, static values) refuses 'unsupported chunk type: interface {}' under Stream only", 1, "C04", "C04.stream-elem-type")
 
 	r.Rule("C15.destination-walk-instantiates", "on the destination side a field promoted through an embedded pointer is reachable: the function checkAndExtractToField resolves the target field with instantiates nil pointers on the way (reflect.New + Set), like instantiateIfNeeded does for named pointer fields — the destination is always a fresh value, so an erroring lookup there fails on every run of a mapping Compile accepted; and the deferred declarations of a WorkflowNode keep their own copy of the caller's mapping list", 2)
 	{
